@@ -143,6 +143,16 @@ def write_pkg(d, pkgdir, fname='k.go'):
         json.dump(d, f)
 
 
+def write_files(decls, pkgdir):
+    """one declaration per file (k0.go, k1.go, ...) of ONE package; several files per generator invocation"""
+    os.makedirs(pkgdir, exist_ok=True)
+    for k, d in enumerate(decls):
+        with open(os.path.join(pkgdir, 'k%d.go' % k), 'w') as f:
+            f.write(emit_decl_file(d))
+    with open(os.path.join(pkgdir, 'decls.json'), 'w') as f:
+        json.dump(decls, f)
+
+
 def write_group(decls, pkgdir, fname='k.go'):
     """several declarations in ONE file of one package (shared name pool of one generator invocation)"""
     os.makedirs(pkgdir, exist_ok=True)
